@@ -185,3 +185,28 @@ Proof.
     + intros u Hu. apply H; lia.
   - rewrite (H m) by lia. rewrite IH; [lia|lia|]. intros u Hu Hn. apply H; lia.
 Qed.
+
+Lemma tsum_pos_inv {A} (f : A -> nat) thr n : (0 < tsum f thr n)%nat -> exists u, (u < n)%nat /\ (0 < f (thr u))%nat.
+Proof.
+  unfold tsum. induction n as [|m IH]; simpl; intros H; [lia|].
+  destruct (Nat.eq_dec (f (thr m)) 0) as [E|E].
+  - destruct IH as (u & Hu & Hp); [lia|]. exists u. split; [lia|exact Hp].
+  - exists m. split; lia.
+Qed.
+
+Lemma tsum_ext {A} (f : A -> nat) thr thr' n :
+  (forall u, (u < n)%nat -> f (thr' u) = f (thr u)) -> tsum f thr' n = tsum f thr n.
+Proof. intros H. unfold tsum. apply sum_such_ext. exact H. Qed.
+
+Lemma tsum_le_pointwise {A} (f g : A -> nat) thr n :
+  (forall u, (u < n)%nat -> (f (thr u) <= g (thr u))%nat) -> (tsum f thr n <= tsum g thr n)%nat.
+Proof.
+  intros H. unfold tsum. induction n as [|m IH]; simpl; [lia|].
+  pose proof (H m ltac:(lia)). assert (forall u, (u < m)%nat -> (f (thr u) <= g (thr u))%nat) by (intros; apply H; lia).
+  specialize (IH H1). lia.
+Qed.
+
+Lemma tsum_le_const {A} (f : A -> nat) thr c n : (forall u, (f (thr u) <= c)%nat) -> (tsum f thr n <= c * n)%nat.
+Proof.
+  intros H. unfold tsum. induction n as [|m IH]; simpl; [lia|]. specialize (H m). lia.
+Qed.
